@@ -23,8 +23,9 @@ package caching
 
 //@ func appendHex64
 //@   ensures len(result) == len(dst) + 16
-//@   modifies *
+//@   ensures arr(result) == arr(dst) || fresh(result)
+//@   modifies elems(dst)
 
 //@ func Key
 //@   ensures len(result) == 36
-//@   modifies *
+//@   pure
